@@ -99,7 +99,6 @@ contract(
         f"implies(not old({LABEL} in {DOC}.nameids),"
         f" len(self.current_node.children) == len(old(self.current_node.children)) + 1"
         f" and {NEW}.kind == 'footnote' and {NEW}.parent == self.current_node and fresh({NEW}) and self.g_rc_node == {NEW})",
-        f"implies(not old({LABEL} in {DOC}.nameids), {LABEL} in {DOC}.nameids)",
         # ... registered exactly once, directly after what was registered before (its content may register more after it):
         # numeric labels keep their number (manual), every other label is auto-numbered
         f"implies(not old({LABEL} in {DOC}.nameids) and {LABEL}.isdigit(),"
